@@ -432,7 +432,8 @@ fn gen_seg_cases(rng: &mut Rng, thorough: bool, cases: &mut Vec<String>) {
 fn gen_get_cases(rng: &mut Rng, thorough: bool, cases: &mut Vec<String>) {
     // op templates; the handler / middleware id is the 1-based position in the sequence
     let alpha: Vec<(&str, &str)> = vec![("R", "/a"), ("R", "/a/b"), ("G", "/a"), ("G", ""), ("G", "a/b/"), ("S", "/a"), ("S", ""), ("S", "/ab"), ("S", "/a/"), ("M", "")];
-    let lookups = ["", "/", "/a", "/a/", "/a/b", "/a/b/c", "/ab", "/b", "/a//b"];
+    // "/a/a", "/a/ab", "/a/a/a": the first segment below a mount repeats the mount's own name
+    let lookups = ["", "/", "/a", "/a/", "/a/b", "/a/b/c", "/ab", "/b", "/a//b", "/a/a", "/a/ab", "/a/a/a"];
     let paths = lookups.iter().map(|p| hs(p)).collect::<Vec<_>>().join(",");
     let render = |seq: &[(&str, &str)]| -> String {
         if seq.is_empty() { return "-".into(); }
@@ -449,7 +450,8 @@ fn gen_get_cases(rng: &mut Rng, thorough: bool, cases: &mut Vec<String>) {
         }
     }
     let prefixes = ["", "/", "//", "/a", "/a/", "a", "a/", "/a//", "/a/b", "/ab", "/é", "/a/b/", "///", "/a/b//", "b"];
-    let pool = ["", "/", "//", "/a", "/a/", "/a//", "/a/b", "/a/b/", "/a/b/c/d", "/ab", "/ab/c", "/b", "/b/a", "/é", "/é/x", "/éé", "///", "/a//b", "/a/b//c"];
+    let pool = ["", "/", "//", "/a", "/a/", "/a//", "/a/b", "/a/b/", "/a/b/c/d", "/ab", "/ab/c", "/b", "/b/a", "/é", "/é/x", "/éé", "///", "/a//b", "/a/b//c",
+                "/a/a", "/a/ab", "/a/a/a", "/ab/ab", "/ab/abc", "/é/é", "/a/b/a/b", "/b/b"];
     let nrand = if thorough { 30000 } else { 3000 };
     for _ in 0..nrand {
         let len = rng.range(1, 8) as usize;
